@@ -283,6 +283,13 @@ theorem opSaveM_spec (c : Collection) (dir : Option PPath) (hwf : WF c) :
           (fun e _ os h => opCE_spec e os h) _) fun _ _ => ?_
       exact SpecP.get_bind (SpecP.pure' (by doc_eq))
 
+/-- the same, from the fresh adapters `{}` -/
+theorem opSaveM_run (c : Collection) (dir : Option PPath) (hwf : WF c) :
+    (PathsOK dir c.trav →
+      opSaveM c dir {} = .ok (saveT c dir, mkSt (tagTable c.trav) dir c.trav)) ∧
+    (¬ PathsOK dir c.trav → opSaveM c dir {} = .error .invalid) :=
+  opSaveM_spec c dir hwf
+
 end top
 
 end SE.Aoef
